@@ -248,7 +248,7 @@ func (dc *TraditionalDnsConn) getQueueC(qid uint16) chan<- *[]byte {
 func (dc *TraditionalDnsConn) queueLen() int {
 	dc.queueMu.RLock()
 	defer dc.queueMu.RUnlock()
-	return len(dc.queue) + dc.reservedQuery
+	return dc.reservedQuery
 }
 
 // addQueueC assigns a qid and add it to the queue.
@@ -288,7 +288,10 @@ func (dc *TraditionalDnsConn) ReserveNewQuery() (_ ReservedExchanger, closed boo
 
 	dc.queueMu.Lock()
 	defer dc.queueMu.Unlock()
-	if len(dc.queue)+dc.reservedQuery >= dc.maxCq {
+	// Note: A query in the queue still holds its reservation, which is released
+	// when its ExchangeReserved call returns. So reservedQuery alone is the number
+	// of used slots. Adding len(dc.queue) would count every ongoing query twice.
+	if dc.reservedQuery >= dc.maxCq {
 		return nil, false
 	}
 	dc.reservedQuery++
